@@ -1,5 +1,6 @@
 /- Driver commands for writer/reader sessions (C01, C03, C04, C19). -/
 import LasModel.Model.FileIO
+import LasModel.Model.Appender
 import LasModel.Driver.HdrD
 namespace LasModel.Driver.FileD
 open LasModel.Header LasModel.FileIO LasModel.Driver.Util LasModel.Driver.VlrD LasModel.Driver.HdrD
@@ -12,9 +13,32 @@ def floatOps (h : Hdr) : FOps Float :=
     gt := fun a b => a > b,
     lt := fun a b => a < b,
     bits := fun x => x.toBits.toNat,
+    ofBits := f64,
     lowest := f64 0xFFEFFFFFFFFFFFFF,
     highest := f64 0x7FEFFFFFFFFFFFFF,
     zero := 0.0 }
+
+def emptyHdr : Hdr :=
+  { fileSourceId := 0
+    globalEncoding := 0
+    guid := []
+    vMajor := 1
+    vMinor := 2
+    systemId := []
+    software := []
+    doy := 0
+    year := 0
+    fmtByte := 0
+    recLen := 0
+    count := 0
+    byReturn := []
+    doubles := []
+    waveformStart := 0
+    evlrStart := 0
+    nEvlrs := 0
+    extraHeader := []
+    vlrs := []
+    extraVlr := [] }
 
 def werr : WErr → String
   | .header e => "Header:" ++ errName e | .incompatible => "Incompatible" | .done => "Done" | .format => "Format"
@@ -63,6 +87,19 @@ def handle (args : List String) : Option String :=
         let hd := withStats o h st 0 0
         return s!"{hd.count} {showNats hd.byReturn} {showNats (hd.doubles.drop 6)}"
       | _ => none
+  | "append" :: hex :: ops => do
+      let file := toBytes (← parseHex hex)
+      let ops ← ops.mapM parseOp
+      let chunks := ops.filterMap fun op => match op with | .points c => some c | _ => none
+      let o := match decodeHdr file with
+        | .ok h => floatOps h
+        | .error _ => floatOps emptyHdr
+      match Appender.appendSession o file chunks with
+      | .ok bs => return "ok " ++ toHex (ofBytes bs)
+      | .error e => return "err " ++ (match e with
+          | .header e => "Header:" ++ errName e | .format => "Format" | .capacity => "Capacity"
+          | .evlrPosition => "EvlrPosition" | .vlr => "Vlr" | .rewrite e => "Rewrite:" ++ errName e
+          | .pointFormat => "PointFormat")
   | ["read", hex] => do
       match readFile (toBytes (← parseHex hex)) with
       | .ok r =>
